@@ -96,6 +96,9 @@ def check(index, ctx):
                     "no path rejects overlapping shared/task parameters with ValueError before the pipeline runs", entry.loc())
     from .C01 import idiom_rules
 
+    from .C07 import partition_rule
+
+    partition_rule(ctx, P, rs, "R2")
     single_pass_rule(ctx, index, "R5", entry)
     ctx.floor("non-empty returning paths of mtl_backward", n_main, 5)
     _pipe.common_evidence(ctx, index, ("mtl_backward",))
